@@ -90,3 +90,52 @@ Definition ht_literal_ok (nlits : Z) (fs : ht_fields) (assigned : list string) :
   match assigned with [] => true | _ => false end.
 
 Definition ht_is_queued (a : ht_admit) : bool := match a with HtQueued => true | _ => false end.
+
+(* ---------------------------------------------------------------------------------------- *)
+(* Life time of the pooled compression resources of a tunnel stream (libio.WithCompressionFromPool):
+   the statements of a function abstracted to events by translator unit t9rc (gen/GenRecycle.v).
+   A snappy reader/writer pair that goes back to the sync.Pool while its stream is still being served is
+   Reset onto the next compressed connection: two streams then share one decoder/encoder. *)
+Inductive rc_ev :=
+| RcAcquire                                  (* x, recycle = WithCompressionFromPool(x) *)
+| RcDefer                                    (* defer recycle() *)
+| RcRecycle                                  (* recycle() *)
+| RcJoin                                     (* libio.Join(..): returns when the stream has ended *)
+| RcClose                                    (* the work / user connection is closed: the stream has ended *)
+| RcAsync                                    (* plugin.Handle(..): queues the stream for somebody else, returns at once *)
+| RcUnknown (what : string)
+| RcIf (body : list rc_ev) (returns : bool). (* an if block; returns: it ends with a return statement *)
+
+(* all executions of a statement list as event sequences (a path ends where the function returns) *)
+Fixpoint rc_seq (e : rc_ev) (cont : list (list rc_ev)) : list (list rc_ev) :=
+  match e with
+  | RcIf body returns =>
+      cont ++ (fix go (l : list rc_ev) : list (list rc_ev) :=
+                 match l with
+                 | [] => if returns then [[]] else cont
+                 | x :: r => rc_seq x (go r)
+                 end) body
+  | a => map (cons a) cont
+  end.
+
+Definition rc_paths (evs : list rc_ev) : list (list rc_ev) := fold_right rc_seq [[]] evs.
+
+(* one execution: the resources are given back only when the stream they serve has ended.
+   [alive]: resources acquired and their stream not yet ended; [deferred]: a deferred recycle is pending
+   and fires when the function returns (end of the path) *)
+Fixpoint rc_path_safe (p : list rc_ev) (alive deferred : bool) : bool :=
+  match p with
+  | [] => negb (deferred && alive)
+  | RcAcquire :: r => rc_path_safe r true deferred
+  | RcDefer :: r => rc_path_safe r alive true
+  | RcRecycle :: r => negb alive && rc_path_safe r alive deferred
+  | RcJoin :: r => rc_path_safe r false deferred
+  | RcClose :: r => rc_path_safe r false deferred
+  | RcAsync :: r => rc_path_safe r alive deferred
+  | RcUnknown _ :: _ => false
+  | RcIf _ _ :: _ => false
+  end.
+
+Definition rc_site_safe (evs : list rc_ev) : bool := forallb (fun p => rc_path_safe p false false) (rc_paths evs).
+Definition rc_sites_safe (sites : list (string * string * list rc_ev)) : bool :=
+  match sites with [] => false | _ => forallb (fun s => rc_site_safe (snd s)) sites end.
